@@ -167,10 +167,15 @@ class Facts:
         self.fns = {}        # id -> fn record
         self.by_path = {}    # canonical path -> fn record
         self.adts = {}       # path -> adt
+        self.consts = {}     # id -> named constant (path, body)
+        self.consts_by_path = {}
         self.impls = []
         self.traits = {}
         self.impls_of = {}   # trait item id -> [fn id]
         for uname, u in units.items():
+            for c in u.get("consts", []):
+                self.consts[c["id"]] = c
+                self.consts_by_path[c["path"]] = c
             for f in u["fns"]:
                 f["crate"] = uname
                 self.fns[f["id"]] = f
